@@ -54,6 +54,7 @@ def flush (b : B) : B × String :=
 
 /-- received QoS>0 publish awaiting acks by the scripted client (same bookkeeping as the Go harness) -/
 structure Rx where
+  key : String := ""     -- the rendered packet with the id masked: canonical tie-break
   op : Nat
   tag : String
   sids : String
@@ -81,11 +82,11 @@ def track (st : St) : St :=
     | none => st
     | some cid =>
       match o.pkt with
-      | .publish _ q _ _ id tag _ sids _ _ _ =>
+      | .publish t q r d id tag n sids exp al sz =>
         if q > 0 then
           let l := st.rxOf cid
           let known := l.any (fun e => e.id == id && !(e.acked && (e.qos == 1 || e.comp)))
-          if known then st else st.setRx cid (l ++ [{ op := st.opIndex, tag := tok tag, sids := showSids sids, qos := q, id := id }])
+          if known then st else st.setRx cid (l ++ [{ key := showPkt (.publish t q r d 0 tag n sids exp al sz), op := st.opIndex, tag := tok tag, sids := showSids sids, qos := q, id := id }])
         else st
       | .connack sp code _ => if !sp && code == 0 then st.setRx cid [] else st
       | _ => st) st
@@ -95,7 +96,7 @@ def outstanding (l : List Rx) (kind : String) : List Rx :=
     if kind == "puback" then e.qos == 1 && !e.acked
     else if kind == "pubrec" then e.qos == 2 && !e.acked
     else e.qos == 2 && e.acked && !e.comp)
-  es.mergeSort (fun a b => a.op < b.op || (a.op == b.op && (a.tag < b.tag || (a.tag == b.tag && a.sids ≤ b.sids))))
+  es.mergeSort (fun a b => a.op < b.op || (a.op == b.op && (a.tag < b.tag || (a.tag == b.tag && (a.sids < b.sids || (a.sids == b.sids && a.key ≤ b.key))))))
 
 def parseCfg (m : List (String × String)) : Cfg :=
   { onlyOnce := (getS m "mode").getD "onlyonce" != "overlap",
@@ -217,6 +218,20 @@ def step (st : St) (line : String) : St × String :=
         let (st, s) := finish st b
         (st, "nosession " ++ s)
       else finish st (b.apiBackdate (unesc cid) (natOf secs))
+    | "race", n :: cid :: _ =>
+      -- n simultaneous CONNECTs with one client id: by `Takeover.takeover_exclusive` exactly one ends up attached,
+      -- whatever the interleaving; the harness then closes all of them
+      let v := getN m "v" 5
+      let names := (List.range (natOf n)).map (fun i => s!"r{st.opIndex}_{i}")
+      let b := names.foldl (fun (bb : B) cn =>
+        let r : ConnectReq := { conn := cn, cid := unesc cid, v := v, clean := getN m "cs" 0 == 1,
+                                se := if v == 5 then some (getN m "se" 300) else none }
+        (bb.connect r).pumpAll) b
+      let alive := (b.clis.filter (fun c => names.contains c.conn)).length
+      let online := b.clis.length
+      let b := names.foldl (fun (bb : B) cn => bb.closeIn cn) b
+      let st := track { st with b := b.pumpAll }
+      ({ st with b := { st.b with out := [] } }, s!"alive={alive} online={online}")
     | "sleep", ms :: _ => finish st (b.sleep (natOf ms))
     | _, _ => (st, "bad-op")
   | [] => (st, "bad-op")
